@@ -104,7 +104,7 @@ FIXED = [
 def grammars(ctx):
     r = ctx['rng']
     out = [t.encode() for t in FIXED]
-    n = 330 if ctx['tier'] == 'quick' else 4000
+    n = 900 if ctx['tier'] == 'quick' else 6000
     for k in range(n):
         g = NastyGen(r, lits=NASTY_LITS if k % 3 else None, descrs=NASTY_DESCRS if k % 4 else None,
                      cmds=NASTY_CMDS if k % 2 else None, names=NASTY_NAMES, sub_lits=SUB_LITS if k % 3 == 0 else None,
